@@ -1,29 +1,104 @@
 #!/usr/bin/env python3
 # Regenerates MANIFEST.json from the table below (keeps the interface file consistent with the checks that exist).
 import json
-TV="translation_validation"; MC="model_checking"
-trust_sh="trusted: RefTSH (reference AST evaluator) and ShSem (semantics of the emitted Bash subset, calibrated against /bin/bash by `verif selftest`), intrinsic models of fmt/strings/strconv/regexp, z3 4.8.12; program shapes are enumerated (listed in evidence), values/bytes on each shape are symbolic and decided by the solver; counterexamples are replayed on the native transpiler and the real bash before being reported"
-checks={
- "C01":(TV,"real front-end + Bash back-end executed symbolically from SSA on scalar program shapes (symbolic 64-bit literals, operator choices, neutral string bytes); the emitted script is interpreted by ShSem and compared, for all values on each path, with RefTSH's evaluation of the same AST (stdout, exit status, stderr); unsat on every path within the shapes/bounds",trust_sh,"SSA symbolic execution + ShSem/RefTSH equivalence decided by z3 per path"),
- "C02":(TV,"as C01 on function/frame shapes: by-value/by-reference parameters, name reuse across frames, global writes from functions, multi-value returns, nested calls, simultaneous assignment",trust_sh,"SSA symbolic execution + ShSem/RefTSH equivalence decided by z3 per path"),
- "C03":(TV,"as C01 on slice/string shapes: growth with symbolic indices 0..12, aliasing, range, copy, substrings with symbolic bounds and symbolic string bytes",trust_sh,"SSA symbolic execution + ShSem/RefTSH equivalence decided by z3 per path"),
- "C04":(TV,"as C02 with tracer functions at every operand position; the printed trace must equal the reference's left-to-right, exactly-once, eager order for all steering values",trust_sh,"SSA symbolic execution + trace equivalence decided by z3 per path"),
- "C11":(MC,"bounded symbolic execution of lexer.Tokenize from SSA on fully symbolic byte strings (n<=2 quick, n<=3 thorough) and on lexeme templates with symbolic hole bytes; every path is compared, for all byte values on it, with an independent reference lexer","trusted: reference lexer oracle/reflex.go, intrinsic models of regexp/strconv/strings, z3 4.8.12; conditions over <=3 independent byte variables are settled by exhaustive evaluation over their domains, all others by z3; outside the bound: longer inputs / other templates; counterexamples are replayed on the natively built lexer","SSA symbolic execution + SMT equivalence against a reference lexer, bounded input length"),
+
+TV = "translation_validation"
+MC = "model_checking"
+
+trust_sh = ("trusted: RefTSH (reference AST evaluator) and ShSem (semantics of the emitted Bash subset, calibrated against "
+            "/bin/bash by `verif selftest`), intrinsic models of fmt/strings/strconv/regexp, z3 4.8.12; program shapes are "
+            "enumerated (listed in evidence), values/bytes on each shape are symbolic and decided by the solver; "
+            "counterexamples are replayed on the native transpiler and the real bash before being reported")
+tech_sh = "SSA symbolic execution + ShSem/RefTSH equivalence decided by z3 per path"
+
+checks = {}
+
+checks["C01"] = (TV,
+    "real front-end + Bash back-end executed symbolically from SSA on scalar program shapes (symbolic 64-bit literals, "
+    "operator choices, neutral string bytes); the emitted script is interpreted by ShSem and compared, for all values on "
+    "each path, with RefTSH's evaluation of the same AST (stdout, exit status, stderr); unsat on every path within the shapes/bounds",
+    trust_sh, tech_sh)
+checks["C02"] = (TV,
+    "as C01 on function/frame shapes: by-value/by-reference parameters, name reuse across frames, global writes from "
+    "functions, multi-value returns, nested calls, simultaneous assignment", trust_sh, tech_sh)
+checks["C03"] = (TV,
+    "as C01 on slice/string shapes: growth with symbolic indices 0..12, aliasing, range, copy, substrings with symbolic "
+    "bounds and symbolic string bytes", trust_sh, tech_sh)
+checks["C04"] = (TV,
+    "as C02 with tracer functions at every operand position; the printed trace must equal the reference's left-to-right, "
+    "exactly-once, eager order for all steering values", trust_sh,
+    "SSA symbolic execution + trace equivalence decided by z3 per path")
+checks["C11"] = (MC,
+    "bounded symbolic execution of lexer.Tokenize from SSA on fully symbolic byte strings (n<=2 quick, n<=3 thorough) and "
+    "on lexeme templates with symbolic hole bytes; every path is compared, for all byte values on it, with an independent reference lexer",
+    "trusted: reference lexer oracle/reflex.go, intrinsic models of regexp/strconv/strings, z3 4.8.12; conditions over <=3 "
+    "independent byte variables are settled by exhaustive evaluation over their domains, all others by z3; outside the "
+    "bound: longer inputs / other templates; counterexamples are replayed on the natively built lexer",
+    "SSA symbolic execution + SMT equivalence against a reference lexer, bounded input length")
+checks["C12"] = (MC,
+    "metamorphic check executed in the SSA executor: for gap positions of seed programs (all gaps of hand-written "
+    "statement-form seeds, sampled gaps of the repository's test programs) the layout is replaced from menus of "
+    "blanks/tabs/comments/blank lines/CRLF/final-newline variants; acceptance and emitted bytes must equal those of the "
+    "original layout for both targets",
+    "trusted: host-side token splitter that defines token-preserving re-layouts; differences are re-confirmed on the "
+    "native build; outside: layouts not in the menus, windows wider than 2 (quick) / 3 (thorough) gaps",
+    "SSA execution of lexer+parser+both back-ends on re-laid-out sources (explicit nondeterministic layout choice), byte equality of outputs")
+checks["C13"] = (MC,
+    "bounded symbolic execution of Transpile for both targets: main file of n fully symbolic bytes (n<=2 quick, n<=3 "
+    "thorough), token positions of the repository's test programs replaced by a symbolic byte or a menu lexeme, all import "
+    "graphs over three files incl. cycles; assertion: no Go panic, instruction/depth budget not exceeded, result is "
+    "(script,nil) or (\"\",non-empty error)",
+    "trusted: intrinsic models, virtual file system; hang candidates and panics are reproduced on the native build under a "
+    "watchdog before being reported; outside: longer symbolic files, double-token edits (thorough samples more positions)",
+    "SSA symbolic execution with panic capture and budgets; z3 / byte-domain decision for branch feasibility")
+checks["C14"] = (MC,
+    "bounded exploration in the SSA executor of call histories (1..2 quick, 1..3 thorough) on one transpiler object over 4 "
+    "programs x 2 targets, 3 directory spellings and every permutation of every map range; each call's text must equal, "
+    "for all values of the symbolic integer literals, the text of the same call alone at the canonical location; plus "
+    "native repetition/relocation/fresh-process runs",
+    "trusted: map iteration order is the only process-level nondeterminism reachable (any other nondeterministic stdlib "
+    "call ends the path as unsupported); outside: longer histories, other programs",
+    "SSA execution with nondeterministic map order and history choice; rope equality decided syntactically or by z3")
+
+# extra entries are appended by later edits of this file
+EXTRA_CHECKS = {}
+checks.update(EXTRA_CHECKS)
+
+na = {}
+pending = "check not built yet in this session (work in progress, see DESIGN.md section 3)"
+
+props = [json.loads(l)["id"] for l in open("/verif/properties.jsonl")]
+m = {
+    "version": 1,
+    "setup_cmd": "cd /verif/engine && GOFLAGS=-mod=mod GOPROXY=off GOSUMDB=off GOTOOLCHAIN=local go build -o /verif/bin/verif ./cmd/verif",
+    "hooks": {
+        "guard": "verif",
+        "enable": "no source hooks in /repo: checks load /repo's working tree with go/packages + go/ssa on every run; the native replay driver /verif/harness/drv/main.go (//go:build verif) is overlaid as /repo/zzverifdrv/main.go with `go build -tags verif -overlay` into a scratch directory",
+        "baseline_off_cmd": "cd /repo/tests && GOFLAGS=-mod=mod GOPROXY=off GOSUMDB=off go test -vet=off -count=1 ./...",
+        "source_commits": [],
+        "add_only": True,
+    },
+    "engines": [{
+        "name": "gosym", "path": "/verif/engine", "serves_properties": sorted(checks),
+        "kind_free_text": "own go/ssa symbolic executor (Go values with bit-vector leaves, strings as ropes of symbolic bytes and decimal atoms), replay-based path forking, one z3 -in per worker; reference semantics (RefTSH, ShSem) in engine/oracle run on the same symbolic values",
+    }],
+    "checks": [], "not_applicable": [],
+    "notes": "solver-based checking of the real code: see DESIGN.md; known findings and repaired defects in KNOWN_FINDINGS.txt",
 }
-na={
-}
-pending="check not built yet in this session (work in progress, see DESIGN.md section 3)"
-props=[json.loads(l)["id"] for l in open("/verif/properties.jsonl")]
-m={"version":1,
- "setup_cmd":"cd /verif/engine && GOFLAGS=-mod=mod GOPROXY=off GOSUMDB=off GOTOOLCHAIN=local go build -o /verif/bin/verif ./cmd/verif",
- "hooks":{"guard":"verif","enable":"no source hooks in /repo: checks load /repo's working tree with go/packages + go/ssa on every run; the native replay driver /verif/harness/drv/main.go (//go:build verif) is overlaid as /repo/zzverifdrv/main.go with `go build -tags verif -overlay` into a scratch directory","baseline_off_cmd":"cd /repo/tests && GOFLAGS=-mod=mod GOPROXY=off GOSUMDB=off go test -vet=off -count=1 ./...","source_commits":[],"add_only":True},
- "engines":[{"name":"gosym","path":"/verif/engine","serves_properties":sorted(checks),"kind_free_text":"own go/ssa symbolic executor (Go values with bit-vector leaves, strings as ropes of symbolic bytes and decimal atoms), replay-based path forking, one z3 -in per worker; reference semantics (RefTSH, ShSem) in engine/oracle run on the same symbolic values"}],
- "checks":[], "not_applicable":[], "notes":"solver-based checking of the real code: see DESIGN.md; known findings and repaired defects in KNOWN_FINDINGS.txt"}
 for p in props:
     if p in checks:
-        lv,text,note,tech=checks[p]
-        m["checks"].append({"property_id":p,"quick_cmd":"/verif/bin/verif check %s --tier quick"%p,"thorough_cmd":"/verif/bin/verif check %s --tier thorough"%p,"evidence_file":"/verif/evidence/%s.json"%p,"replay_cmd_template":"/verif/bin/verif replay %s {path}"%p,"engine":"gosym","level_claimed":{"category":lv,"text":text,"design_ref":"DESIGN.md section 3 / "+p},"level_note":note,"technique":tech})
+        lv, text, note, tech = checks[p]
+        m["checks"].append({
+            "property_id": p,
+            "quick_cmd": "/verif/bin/verif check %s --tier quick" % p,
+            "thorough_cmd": "/verif/bin/verif check %s --tier thorough" % p,
+            "evidence_file": "/verif/evidence/%s.json" % p,
+            "replay_cmd_template": "/verif/bin/verif replay %s {path}" % p,
+            "engine": "gosym",
+            "level_claimed": {"category": lv, "text": text, "design_ref": "DESIGN.md section 3 / " + p},
+            "level_note": note, "technique": tech,
+        })
     else:
-        m["not_applicable"].append({"property_id":p,"reason":na.get(p,pending)})
-json.dump(m,open("/verif/MANIFEST.json","w"),indent=1)
-print("claimed:",sorted(checks),"not applicable:",[x["property_id"] for x in m["not_applicable"]])
+        m["not_applicable"].append({"property_id": p, "reason": na.get(p, pending)})
+json.dump(m, open("/verif/MANIFEST.json", "w"), indent=1)
+print("claimed:", sorted(checks), "not applicable:", [x["property_id"] for x in m["not_applicable"]])
